@@ -113,7 +113,9 @@ def run(ctx: Context) -> None:
         # a coordinate without a dimension (the time of one selected record) names no dimension: dims[0] is only read when there is one
         dfc = ctx.func('emsarray.utils.dimensions_from_coords')
         from .common import guards as _g12
-        firsts = [n for n in ast.walk(dfc.node) if isinstance(n, ast.Subscript) and const_value(n.slice, None) == 0 and norm_text(n.value).endswith('.dims')]
+        from .common import expand_locals as _x12a
+        firsts = [n for n in ast.walk(dfc.node) if isinstance(n, ast.Subscript) and isinstance(n.ctx, ast.Load) and const_value(n.slice, None) == 0
+                  and norm_text(_x12a(ctx.flow(dfc), n.value)).endswith('.dims')]
         ok_sc = bool(firsts)
         for n in firsts:
             owner = norm_text(n.value)
@@ -147,7 +149,40 @@ def run(ctx: Context) -> None:
                            "    $sp = frozenset($var.dims).difference({$dd}, $nsd)\n"
                            "    if not $sp:\n        continue\n"
                            "    $groups[$sp].append($name)", within=outer) if nsd_st is not None else None
-        ctx.check('R12.3', grouping is not None and mo.stmt('$groups = defaultdict(list)', within=outer) is not None,
+        grouped_ok = grouping is not None and mo.stmt('$groups = defaultdict(list)', within=outer) is not None
+        if not grouped_ok and nsd_st is not None:
+            # the same grouping in another shape: what is known where a name joins a group, and under which key
+            from .common import expand_locals as _xg, facts as _fg
+            oflow = ctx.flow(of)
+            gl = mo.stmt("for $name, $var in " + ds + ".data_vars.items():\n    ...", within=outer)
+            if gl is not None:
+                name_v, var_v, dd_v, nsd_v = mo.name('name'), mo.name('var'), mo.name('dd'), mo.name('nsd')
+                joins = [c for c in ast.walk(gl) if isinstance(c, ast.Call) and isinstance(c.func, ast.Attribute) and c.func.attr == 'append' and len(c.args) == 1
+                         and norm_text(c.args[0]) == name_v]
+                if len(joins) == 1:
+                    recv = joins[0].func.value
+                    key = cont = None
+                    if isinstance(recv, ast.Subscript) and isinstance(recv.value, ast.Name):
+                        key, cont = recv.slice, recv.value.id
+                        made = mo.stmt(f"{cont} = defaultdict(list)", within=outer) or mo.stmt(f"{cont} = collections.defaultdict(list)", within=outer)
+                    elif isinstance(recv, ast.Call) and isinstance(recv.func, ast.Attribute) and recv.func.attr == 'setdefault' and len(recv.args) == 2 \
+                            and isinstance(recv.args[1], ast.List) and not recv.args[1].elts and isinstance(recv.func.value, ast.Name):
+                        key, cont = recv.args[0], recv.func.value.id
+                        made = mo.stmt(f"{cont} = {{}}", within=outer) or mo.stmt(f"{cont} = dict()", within=outer)
+                    if key is not None and made is not None and made.lineno < gl.lineno:
+                        keep = [name_v, var_v, dd_v, nsd_v]
+                        key_t = norm_text(_xg(oflow, key, keep=keep))
+                        want_key = {f"frozenset({var_v}.dims).difference({{{dd_v}}}, {nsd_v})", f"frozenset({var_v}.dims) - {{{dd_v}}} - {nsd_v}",
+                                    f"frozenset({var_v}.dims) - {{{dd_v}}} - frozenset({nsd_v})", f"frozenset({var_v}.dims).difference({{{dd_v}}}).difference({nsd_v})"}
+                        fs = {(key_t if t == norm_text(key) else t, pol) for t, pol in _fg(ctx, of, joins[0], expand=False)}
+                        want_facts = {(f"{dd_v} in {var_v}.dims", True), (key_t, True)}
+                        others = [c for c in ast.walk(gl) if isinstance(c, (ast.Break, ast.Return))]
+                        if key_t in want_key and fs == want_facts and not others:
+                            grouped_ok = True
+                            grouping = gl
+                            mo.bind['groups'] = cont
+                            mo.bind['sp'] = mo.bind.get('sp', 'spatial_dimensions')
+        ctx.check('R12.3', grouped_ok,
                   "variables with this depth dimension are grouped by their spatial dimension set (their dims minus this depth dimension and the non-spatial ones); the others are skipped",
                   of, grouping or outer, construct='groups[frozenset(variable.dims) - {depth dimension} - non spatial dimensions].append(name)')
         inner = mo.stmt('for $sp2, $names in $groups.items():\n    ...', within=outer) if grouping is not None else None
